@@ -18,7 +18,7 @@ sys.path.insert(0, os.path.join(HERE, "..", "bytesym"))
 import vcommon as V
 from vcommon import log
 import z3
-import core, ref, driver as D, gen01, gen15, gen07, gen12, gen08, gen13
+import core, ref, driver as D, gen01, gen15, gen07, gen12, gen08, gen13, gen17
 
 LIMITS = {"timeout_ms": 4000, "max_steps": 6000, "max_paths": 160, "max_depth": 10, "budget_s": 90}
 G = {}
@@ -37,7 +37,7 @@ def build_cli(scratch):
 
 
 def family(prop):
-    return {"C01": gen01, "C15": gen15, "C07": gen07, "C12": gen12, "C08": gen08, "C13": gen13}[prop]
+    return {"C01": gen01, "C15": gen15, "C07": gen07, "C12": gen12, "C08": gen08, "C13": gen13, "C17": gen17}[prop]
 
 
 def path_models(paths, nin, limit):
@@ -87,10 +87,27 @@ def work(job):
         res["validated"] = 0
         if validate and "impl" in keep:
             for vals, p in path_models(keep["impl"], fam.NIN, validate):
-                ptrace, rtrace = [], []
-                st, lines, detail = D.predict_impl(funcs, mp, vals, trace=ptrace)
-                rc, out, err = D.run_real(exe, wdir, stem + "r", ref.render(prog, vals), trace=rtrace)
+                ptrace, rtrace, holder = [], [], {}
+                st, lines, detail = D.predict_impl(funcs, mp, vals, trace=ptrace, holder=holder)
+                rc, out, err = D.run_real(exe, wdir, stem + "r", ref.render(prog, vals), trace=rtrace, full_stderr=(prop == "C17"))
                 res["validated"] += 1
+                if prop == "C17" and st == "fail":
+                    # C17: a failing program ends in a reported run-time error (status 1, no panic / abort) whose call trace lists
+                    # exactly the frames active at the point of failure, innermost first
+                    want = [fr.label.split("#", 1)[-1] for fr in reversed(holder["machine"].stack)]
+                    got = D.parse_call_trace(err)
+                    got_n = None if got is None else [g.split("#", 1)[-1] for g in got]
+                    res["call_traces_compared"] = res.get("call_traces_compared", 0) + 1
+                    bad = None
+                    if rc != 1 or "panicked at" in err:
+                        bad = "exit status %s%s where a reported run-time error (status 1) is due" % (rc, ", Rust panic" if "panicked at" in err else "")
+                    elif got_n != want:
+                        bad = "call trace %s, frames active at the failure %s" % (got_n, want)
+                    elif out != lines:
+                        bad = "output before the failure differs"
+                    if bad:
+                        res.setdefault("c17", []).append({"inputs": vals, "why": bad, "expected": [st, lines, want], "real": [rc, out, (got or err[-300:])]})
+                    err = err[-400:]
                 res["trace_records"] = res.get("trace_records", 0) + len(rtrace)
                 tdiff = None
                 if rtrace and ptrace != rtrace:
@@ -179,6 +196,8 @@ def select(prop, tier):
         return gen08.select(tier, V.seed())
     if prop == "C13":
         return gen13.select(tier, V.seed())
+    if prop == "C17":
+        return gen17.select(tier, V.seed())
     if prop == "C01":
         if tier == "quick":
             return gen01.select([(1, None), (2, 1100), (3, 200)], V.seed(), deep=80)
@@ -193,7 +212,7 @@ def select(prop, tier):
 def check(a, prop, t0):
     items, space, full_depth = select(prop, a.tier)
     # every program is also run for real: up to 4 (quick) / 10 (thorough) of its paths, inputs from models of the path conditions
-    jobs = [(i, it, 4 if a.tier == "quick" else 10) for i, it in enumerate(items)]
+    jobs = [(i, it, 200 if prop == "C17" else (4 if a.tier == "quick" else 10)) for i, it in enumerate(items)]
     log("  %s: %d programs (exhaustive to depth %d, seeded sample beyond)" % (prop, len(jobs), full_depth))
     with multiprocessing.Pool(15) as pool:
         results = pool.map(work, jobs, chunksize=4)
@@ -231,6 +250,9 @@ def report(a, prop, results, space, full_depth, t0):
             else:
                 new.append((r, v))
             mism.remove((r, m))
+    for r in results:
+        for c in r.get("c17", []):
+            new.append((r, {"inputs": c["inputs"], "why": c["why"], "expected": c["expected"], "real": c["real"], "reproduced": True}))
     for what, n in known_hits.items():
         print("KNOWN-FINDING: property=%s %s (%d programs of this run show it)" % (prop, what, n))
     seen = set()
@@ -284,6 +306,7 @@ def report(a, prop, results, space, full_depth, t0):
         "paths_outside_bound (loop/step/call-depth bound reached; outside the claim)": nbound,
         "failing_paths_compared (assert, zero divisor, overflow: output must stop at the same statement)": sum(r.get("fail_paths", 0) for r in results),
         "traces_validated_against_impl": nval, "summary_mismatches": len(mism),
+        "call_traces_compared (failing real runs: status 1, no panic, trace = frames active at the failure)": sum(r.get("call_traces_compared", 0) for r in results),
         "trace_records_compared (real interpreter vs. instruction summary, per executed instruction: function, ip, frames, scope markers, operand-stack size)": sum(r.get("trace_records", 0) for r in results),
         "family": {"exhaustive_to_depth": full_depth, "space_listed": space, "selected": len(results)},
         "solver_time_s": round(sum(r.get("t", 0) for r in results), 1),
